@@ -24,10 +24,10 @@ def run(ctx):
         ctx.corr(hx, ["conc", "--runs", "1", "--lin", "300", "--atom", "60"], cases_name="conc.v")
     ctx.assumptions += [
         "one shared set/map; set-typed arguments (other, mutations) are private to the calling goroutine and distinct from the receiver (s.Replace(s), s.DeleteAll(s) are outside the model)",
-        "callbacks (Compute factory, Filter predicate, ForEach consumer) do not call writer methods of the same set",
+        "the Compute factory does not call writer methods of the same set; ForEach/ForEachReverse/Range/Filter consumers MAY call Set/Add, Delete and Clear of the receiver (scripted re-entrant consumers, also through a helper goroutine while the consumer waits)",
         "diff exactness of Apply/Compute is stated for mutations whose added and deleted sets are disjoint (overlap: known finding apply-overlap-reports-unchanged-element); for arbitrary mutations the returned mutations replay the state change",
         "codec instance: uint32 elements (4 bytes little endian), types.Empty values (0 bytes), uint32 count prefix; sets of fewer than 2^32 elements",
-        "iteration concurrent with writers is weakly consistent (ForEach re-locks per step); only its lock behaviour is covered",
+        "iteration under mutation is weakly consistent (ForEach re-locks per step and follows the pointers of a removed current element): proved and checked is that keys live during the whole iteration are visited exactly once in order; a removed element is still shown when it was the successor of an already removed current element (known finding foreach-visits-removed-element-after-current-removed); free-running writers concurrent with an iteration are covered only through writers that land between two steps",
         "deadlock freedom is proved for the lock skeletons under the RWMutex abstraction; Go scheduler fairness is not needed (some thread can always step)",
     ]
 
